@@ -341,6 +341,9 @@ def run(ctx, P):
     from . import r2
     r2.command_queue_drained(ctx, P, "C14h")
     r2.status_never_forgotten(ctx, P, "C14i")
+    r2.both_families_every_interface(ctx, P, "C14k", fnames=("Zeroconf::cleanup",))
+    # SearchStopped at shutdown is delivered, not attempted (the blocking side of the same sends is the known finding of C14d)
+    r2.events_are_lossless(ctx, P, "C14j", chan_suffix=("ServiceEvent", "HostnameResolutionEvent"), floor=2, only_fn="Zeroconf::cleanup")
     from . import c09
     c09.goodbye_per_interface_and_family(ctx, P, callers=("Zeroconf::cleanup",))     # shutdown says goodbye over both sockets (shared with C09)
     clause_queue_released(ctx, P)
